@@ -12,6 +12,7 @@ def _ep_kwargs(cfg, world, name, scripts, handler_holder):
 
     def factory():
         h = H(world, name, scripts, cfg.get('buggify'))
+        h.on_close_mode = cfg.get('on_close')
         handler_holder[name] = h
         return h
 
